@@ -104,7 +104,7 @@ func checkC15(r *Run) {
 	}
 
 	// r6: server-wide state.
-	for _, fa := range db.Fields {
+	for _, fa := range m.fields() {
 		if !fa.Write || !strings.HasPrefix(fa.Key, "p9.Server.") {
 			continue
 		}
